@@ -12,13 +12,18 @@ A case is a JSON-able dict:
   condv     int: which Python spelling of that condition is used
   ttl       TTL in driver notation        (i<secs> | f<ticks> | d<ticks> | s<hex> | ck:.. | cr:..)
   ttlv      int: for callables, 0 = accepts `result=`, 1 = does not (TypeError fallback path of ttl_to_seconds)
-  script    simple: ["v:1","n","f2","e1:3",...]        behaviour[:duration] of execution 0,1,...
+  script    simple: ["v:1","n","f2","e1:3","e1p2",...] behaviour[:duration] of execution 0,1,...
             iter:   ["v,f0:2,v/0", "v,e1:8/0", "-/0"]  steps/findur of run 0,1,...
+            e<c> raises the plain class E<c>; e<c>p<s> raises class c with *payload shape* s (see SHAPES: message built
+            in __init__, several / keyword-only constructor arguments, re-ordered args, attributes and notes,
+            `raise ... from cause`, own __reduce__); an exception the caller receives is canonicalised by a complete
+            observation (type, args, str(), attributes, notes, cause) - see `observe` / `canon`
   ops       [["call", arg_index, form_index], ["adv", ticks], ...]
 """
 from __future__ import annotations
 
 import inspect
+import os
 from datetime import timedelta
 
 from . import vtime
@@ -44,6 +49,135 @@ class E2(Exception):
 
 
 EXC = [E0, E1, E2]
+
+
+# Payload shapes of a raised exception.  Shape s > 0 of class c is a subclass of E<c> (so the library's
+# isinstance-based conditions select it exactly like E<c>) with a constructor of its own, or the plain class raised
+# with more than its args.  What the model calls the *payload* of an exception is everything `observe` sees.
+def _init_msg(self, ident):                       # message built in __init__: args != constructor arguments
+    Exception.__init__(self, f"item {ident} not found")
+    self.ident = ident
+
+
+def _init_two(self, status, reason):              # two mandatory positional arguments, one arg handed to super()
+    Exception.__init__(self, f"{status}: {reason}")
+    self.status = status
+    self.reason = reason
+
+
+def _init_kwonly(self, *, limit):                 # keyword-only constructor argument
+    Exception.__init__(self, limit)
+    self.limit = limit
+
+
+def _init_swap(self, message, code=500):          # args re-ordered on the way to super()
+    Exception.__init__(self, code, message)
+    self.message = message
+    self.code = code
+
+
+def _reduce_two(self):                            # a class that tells pickle / copy how to rebuild it
+    return type(self), (self.status, self.reason), dict(self.__dict__)
+
+
+def _init_errs(self, n, errors=()):               # an error collection: the instance is falsy when it holds no errors
+    Exception.__init__(self, n, errors)
+
+
+def _len_errs(self):
+    return len(self.args[1])
+
+
+# shape id -> (name, class body or None for the plain class, survives a pickle round trip?)
+SHAPES = {
+    0: ("plain", None, True),
+    1: ("msg-built-in-init", {"__init__": _init_msg}, False),
+    2: ("two-positional-args", {"__init__": _init_two}, False),
+    3: ("keyword-only-arg", {"__init__": _init_kwonly}, False),
+    4: ("plain-with-cause", None, False),             # raise E(n) from ValueError(...): __cause__ is not pickled
+    5: ("plain-with-attributes-and-note", None, True),
+    6: ("args-reordered", {"__init__": _init_swap}, False),
+    7: ("two-args-own-reduce", {"__init__": _init_two, "__reduce__": _reduce_two}, True),
+    8: ("falsy-instance", {"__init__": _init_errs, "__len__": _len_errs}, True),
+}
+# Shapes that are valid in a case / replay file but that the generators do not draw yet.
+# 8: on the pinned tree `if _exc: raise _exc` (simple.py:74; same in early.py, hit.py) tests the *truth value* of the
+#    exception: a falsy instance is handed to the caller as a return value instead of being raised (a new finding of this
+#    check, see proposed_fixes/C02_falsy_exception_returned.diff and its witness).  Drawing it would make the check
+#    report that finding on every run; add it to the draw once the repair is in /repo or the finding is registered.
+#    (development: VERIF_C02_PENDING=1 draws them too, to try a repaired tree given by VERIF_REPO.)
+PENDING_SHAPES = set() if os.environ.get("VERIF_C02_PENDING") == "1" else {8}
+GENERATED_SHAPES = sorted(set(SHAPES) - PENDING_SHAPES)
+PICKLE_FAITHFUL = sorted(s for s, (_, _, ok) in SHAPES.items() if ok and s not in PENDING_SHAPES)
+SHAPE_CLS: dict = {}
+for _c, _base in enumerate(EXC):
+    for _s, (_name, _body, _) in SHAPES.items():
+        if _body is None:
+            SHAPE_CLS[(_c, _s)] = _base
+        else:
+            _cls = type(f"E{_c}S{_s}", (_base,), dict(_body))
+            _cls.__module__ = __name__
+            globals()[_cls.__name__] = _cls      # picklable by reference
+            SHAPE_CLS[(_c, _s)] = _cls
+
+
+def raise_exc(c: int, shape: int, n: int):
+    """what the scripted function does for `e<c>p<shape>` in execution n"""
+    cls = SHAPE_CLS[(c, shape)]
+    if shape == 0:
+        raise cls(n)
+    if shape == 1:
+        raise cls(n)
+    if shape in (2, 7):
+        raise cls(400 + n, f"reason-{n}")
+    if shape == 3:
+        raise cls(limit=n)
+    if shape == 4:
+        raise cls(n) from ValueError(f"root-{n}")
+    if shape == 5:
+        exc = cls(n)
+        exc.detail = {"n": n, "path": ["a", n]}
+        exc.add_note(f"while computing {n}")
+        raise exc
+    if shape == 6:
+        raise cls(f"message-{n}", code=n)
+    if shape == 8:
+        raise cls(n, ())
+    raise HarnessError(f"bad exception shape {shape}")
+
+
+def observe(exc: BaseException) -> tuple:
+    """identity-independent but complete observation of an exception as a caller can see it"""
+    cause = exc.__cause__
+    return (type(exc).__module__, type(exc).__qualname__, repr(exc.args), str(exc),
+            repr(sorted((k, repr(v)) for k, v in vars(exc).items())),
+            None if cause is None else (type(cause).__qualname__, repr(cause.args)))
+
+
+_EXPECT: dict = {}
+
+
+def _expectations():
+    if not _EXPECT:
+        for (c, shape) in SHAPE_CLS:
+            for n in range(40):
+                try:
+                    raise_exc(c, shape, n)
+                except Exception as exc:  # noqa: BLE001
+                    _EXPECT[observe(exc)] = f"x{c}.{n}" if shape == 0 else f"x{c}p{shape}.{n}"
+    return _EXPECT
+
+
+def describe_exc(exc: BaseException) -> str:
+    """short, comma- and blank-free rendering of an exception that is none of the scripted ones"""
+    cause = exc.__cause__
+    text = f"{type(exc).__qualname__}({'|'.join(repr(a) for a in exc.args)})"
+    extra = sorted(vars(exc))
+    if extra:
+        text += "+attrs:" + "/".join(extra)
+    if cause is not None:
+        text += "+cause:" + type(cause).__qualname__
+    return "X:" + text.replace(",", ";").replace(" ", "_")[:120]
 FALSY = [0, "", [], False]
 ARGS = [(1, 0), (2, 0), (1, 5), (2, 5)]          # bound (a, b); index = key id of the model
 UNIT_SECS = {"d": 86400, "h": 3600, "m": 60, "s": 1}   # the property's meaning of the units (not read from the code)
@@ -54,11 +188,9 @@ UNIT_SECS = {"d": 86400, "h": 3600, "m": 60, "s": 1}   # the property's meaning 
 def canon(value) -> str:
     """a returned / yielded value or a raised exception in the driver's notation"""
     if isinstance(value, BaseException):
-        for c, cls in enumerate(EXC):
-            if type(value) is cls:
-                n = value.args[0] if value.args else "?"
-                return f"x{c}.{n}"
-        return "X:" + type(value).__name__
+        # x<c>[p<shape>].<n> iff the exception is, in every observable respect (type, args, str(), attributes, notes,
+        # cause), what execution n raises for that class and payload shape - anything else is named as it looks
+        return _expectations().get(observe(value)) or describe_exc(value)
     if value is None:
         return "n"
     if isinstance(value, str) and value.startswith("v"):
@@ -83,7 +215,23 @@ def kind_of(c: str) -> str:
     return "?"
 
 
-KIND_IDX = {"v": 0, "n": 1, "f": 2, "e0": 3, "e1": 4, "e2": 5}
+def base_kind(kind: str) -> str:
+    """the kind without its payload shape: e1p3 -> e1 (conditions and TTL callables see the class only)"""
+    return kind.split("p")[0] if kind.startswith("e") else kind
+
+
+def exc_of_kind(kind: str):
+    """(class index, payload shape) of an exception kind e<c> / e<c>p<s>"""
+    c, _, shape = kind[1:].partition("p")
+    return int(c), int(shape or 0)
+
+
+class _KindIdx(dict):
+    def __missing__(self, kind):
+        return self[base_kind(kind)] if kind != base_kind(kind) else dict.__getitem__(self, kind)
+
+
+KIND_IDX = _KindIdx({"v": 0, "n": 1, "f": 2, "e0": 3, "e1": 4, "e2": 5})
 
 
 def res_idx(kind: str) -> int:
@@ -192,6 +340,7 @@ def cond_accepts_spec(cond: str, kind: str, dur: int, *, item: bool = False) -> 
     exceptions; only_exceptions(S): the listed exceptions only; time condition: values of executions slower
     than the limit; a callable: values for which it returns True (simple decorator: the bool `True`; iterator:
     any truthy value) and exceptions it returns."""
+    kind = base_kind(kind)      # the payload of an exception plays no part in its selection
     is_exc = kind.startswith("e")
     if cond == "all":
         return not is_exc
@@ -250,7 +399,7 @@ def cond_py(cond: str, variant: int):
 def _kind_exact(result) -> str:
     if isinstance(result, BaseException):
         for c, cls in enumerate(EXC):
-            if type(result) is cls:
+            if isinstance(result, cls):
                 return f"e{c}"
         return "e0"
     return kind_of(canon(result))
@@ -302,6 +451,31 @@ def parse_run(r: str):
     return ([] if steps == "-" else [parse_beh(s) for s in steps.split(",")]), int(fd or 0)
 
 
+def expected_exc_text(res: str) -> str:
+    """how the exception behind the canonical result x<c>[p<s>].<n> looks (for messages)"""
+    c, shape = exc_of_kind(kind_of(res))
+    try:
+        raise_exc(c, shape, int(res.rsplit(".", 1)[1]))
+    except Exception as exc:  # noqa: BLE001
+        return describe_exc(exc)[2:] + f" [{SHAPES[shape][0]}]"
+
+
+def check_case(case: dict):
+    """preconditions of a case that the generators guarantee (hand-written replay files may not)"""
+    kinds = []
+    for b in case["script"]:
+        kinds += [parse_beh(b)[0]] if case["kind"] == "simple" else [k for k, _ in parse_run(b)[0]]
+    for k in kinds:
+        if k.startswith("e"):
+            c, shape = exc_of_kind(k)
+            if (c, shape) not in SHAPE_CLS:
+                raise HarnessError(f"bad exception kind {k}")
+            if case["config"] == "secret" and not SHAPES[shape][2]:
+                # with secret= every stored value goes through pickle: an exception that pickle itself does not
+                # rebuild faithfully is outside what the decorator can promise (the serializer is C09/C10's subject)
+                raise HarnessError(f"exception shape {shape} does not survive pickling; not a valid case for config 'secret'")
+
+
 def setup_cache(config: str) -> Cache:
     cache = Cache()
     if config == "plain":
@@ -326,6 +500,7 @@ def execute(case: dict):
            simple: {"n","key","t","kind","dur","res"}   iter: {"n","key","start","outs","kinds","complete"}"""
     kind = case["kind"]
     sig = case["sig"]
+    check_case(case)
     key_of = key_of_factory(sig)
     log: list[dict] = []
     script = case["script"]
@@ -359,8 +534,9 @@ def execute(case: dict):
                 if k.startswith("f"):
                     entry["res"] = k
                     return FALSY[int(k[1:])]
+                c, shape = exc_of_kind(k)
                 entry["res"] = f"x{k[1:]}.{n}"
-                raise EXC[int(k[1:])](n)
+                raise_exc(c, shape, n)
 
             kwargs = dict(ttl=ttl, key=case.get("keytpl"), prefix=case.get("prefix", ""),
                           protected=case.get("protected", False))
@@ -391,7 +567,7 @@ def execute(case: dict):
                         entry["kinds"].append(k)
                         entry["complete"] = True
                         entry["end"] = CLOCK.ticks()
-                        raise EXC[int(k[1:])](n)
+                        raise_exc(*exc_of_kind(k), n)
                     entry["kinds"].append("f" if k.startswith("f") else k)
                     if k == "v":
                         entry["outs"].append(f"v{n}.{i}")
@@ -431,7 +607,10 @@ def execute(case: dict):
             before = len(log)
             if kind == "simple":
                 try:
-                    got = canon(await f(*args, **kwargs))
+                    value = await f(*args, **kwargs)
+                    got = canon(value)
+                    if isinstance(value, BaseException):       # an exception handed over as a *return value*
+                        got = "returned:" + got
                 except Exception as exc:  # noqa: BLE001 - the wrapped function's scripted exceptions
                     got = canon(exc)
                 trace.append({"line": f"call {op[1]}", "impl": f"{got} {'run' if len(log) > before else 'hit'}",
@@ -440,7 +619,7 @@ def execute(case: dict):
                 items = []
                 try:
                     async for x in f(*args, **kwargs):
-                        items.append(canon(x))
+                        items.append(("yielded:" if isinstance(x, BaseException) else "") + canon(x))
                 except Exception as exc:  # noqa: BLE001
                     items.append(canon(exc))
                 trace.append({"line": f"it {op[1]}", "impl": f"{','.join(items) or '-'} {'run' if len(log) > before else 'hit'}",
@@ -508,7 +687,13 @@ def oracle(case: dict, trace, log):
                                 why = f"execution {x['n']} produced it but the condition rejected it"
                             else:
                                 why = f"execution {x['n']} produced it {now - x['t']} ticks ago, ttl is {tt} ticks"
-                    return i, f"served {got} from the cache: {why}"
+                    failures = [x for x in stored if x["kind"].startswith("e")]
+                    if why.startswith("no execution") and failures:
+                        y = failures[-1]
+                        why = (f"the stored result is the failure of execution {y['n']}, which raised {expected_exc_text(y['res'])}; "
+                               f"what the caller got is not the exception that was raised")
+                    shown = f"{got} (= {expected_exc_text(got)})" if got.startswith("x") else got
+                    return i, f"served {shown} from the cache: {why}"
         return None
     # iterator
     seen = 0
@@ -542,6 +727,12 @@ def oracle(case: dict, trace, log):
                     else:
                         ok = True
                         break
+            if not ok and why.startswith("no run") and items:
+                for x in log[:seen]:
+                    if (x["key"] == k and x["complete"] and len(x["outs"]) == len(items) and x["outs"][:-1] == items[:-1]
+                            and x["outs"][-1].startswith("x")):
+                        why = (f"run {x['n']} delivered the same items and then raised {expected_exc_text(x['outs'][-1])}; "
+                               f"the replay ends with {items[-1]}: not the exception that was raised")
             if not ok:
                 return i, f"replayed {items or '[]'} from the cache: {why}"
     return None
